@@ -1064,16 +1064,24 @@ impl DcpsDomainParticipant {
                                             *x =
                                                 discovered_reader_data.dds_subscription_data.clone()
                                         }
-                                        None => data_writer.matched_subscription_list.push(
-                                            discovered_reader_data.dds_subscription_data.clone(),
-                                        ),
+                                        None => {
+                                            data_writer.matched_subscription_list.push(
+                                                discovered_reader_data
+                                                    .dds_subscription_data
+                                                    .clone(),
+                                            );
+                                            // Only a new match is counted, not the update of an existing one
+                                            data_writer
+                                                .publication_matched_status
+                                                .current_count_change += 1;
+                                            data_writer.publication_matched_status.total_count += 1;
+                                            data_writer
+                                                .publication_matched_status
+                                                .total_count_change += 1;
+                                        }
                                     };
                                     data_writer.publication_matched_status.current_count =
                                         data_writer.matched_subscription_list.len() as i32;
-                                    data_writer.publication_matched_status.current_count_change +=
-                                        1;
-                                    data_writer.publication_matched_status.total_count += 1;
-                                    data_writer.publication_matched_status.total_count_change += 1;
 
                                     let unicast_locator_list = if discovered_reader_data
                                         .reader_proxy
@@ -1190,6 +1198,33 @@ impl DcpsDomainParticipant {
                                         .status_condition
                                         .add_communication_state(StatusKind::PublicationMatched);
                                 } else {
+                                    // A previously matched reader whose QoS became incompatible is unmatched
+                                    if data_writer.matched_subscription_list.iter().any(|x| {
+                                        x.key() == discovered_reader_data.dds_subscription_data.key()
+                                    }) {
+                                        data_writer.remove_matched_subscription(&InstanceHandle::new(
+                                            discovered_reader_data
+                                                .dds_subscription_data
+                                                .key()
+                                                .value,
+                                        ));
+                                        data_writer.transport_writer.delete_matched_reader(
+                                            discovered_reader_data.reader_proxy.remote_reader_guid,
+                                        );
+                                        data_writer.status_condition.add_communication_state(
+                                            StatusKind::PublicationMatched,
+                                        );
+                                        if data_writer.transport_writer.is_change_acknowledged(
+                                            data_writer.last_change_sequence_number,
+                                        ) {
+                                            for n in data_writer
+                                                .wait_for_acknowledgments_notification
+                                                .drain(..)
+                                            {
+                                                n.send(Ok(()));
+                                            }
+                                        }
+                                    }
                                     data_writer
                                         .incompatible_subscriptions
                                         .add_incompatible_subscription(
@@ -1741,6 +1776,17 @@ impl DcpsDomainParticipant {
                                         .status_condition
                                         .add_communication_state(StatusKind::SubscriptionMatched);
                                 } else {
+                                    // A previously matched writer whose QoS became incompatible is unmatched
+                                    if data_reader.matched_publication_list.iter().any(|x| {
+                                        x.key() == discovered_writer_data.dds_publication_data.key()
+                                    }) {
+                                        data_reader.remove_matched_publication(&InstanceHandle::new(
+                                            discovered_writer_data.dds_publication_data.key().value,
+                                        ));
+                                        data_reader.transport_reader.delete_matched_writer(
+                                            discovered_writer_data.writer_proxy.remote_writer_guid,
+                                        );
+                                    }
                                     data_reader.add_requested_incompatible_qos(
                                         InstanceHandle::new(
                                             discovered_writer_data.dds_publication_data.key().value,
@@ -1880,6 +1926,9 @@ impl DcpsDomainParticipant {
             .any(|x| &x.key().value == publication_handle.as_ref())
         {
             data_reader.remove_matched_publication(&publication_handle);
+            data_reader
+                .transport_reader
+                .delete_matched_writer(Guid::from(<[u8; 16]>::from(publication_handle)));
         }
     }
 
@@ -2674,24 +2723,29 @@ impl DcpsDomainParticipant {
                     data_reader
                         .transport_reader
                         .delete_matched_writer(key.into());
+                    data_reader.remove_matched_publication(&InstanceHandle::new(key));
                 }
             }
         }
 
         for publisher in &mut self.domain_participant.user_defined_publisher_list {
             for data_writer in &mut publisher.data_writer_list {
-                for matched_subscription in &data_writer.matched_subscription_list {
-                    if matched_subscription.key.value[..12] == prefix {
-                        // Remove readers
-                        data_writer
-                            .writer
-                            .transport_writer
-                            .delete_matched_reader(matched_subscription.key.value.into());
-                    }
-                }
-                data_writer
+                let removed_reader_guids: Vec<_> = data_writer
                     .matched_subscription_list
-                    .retain(|subscription| subscription.key.value[..12] != prefix);
+                    .iter()
+                    .filter(|m| m.key.value[..12] == prefix)
+                    .map(|m| m.key.value)
+                    .collect();
+                for key in removed_reader_guids {
+                    // Remove readers
+                    data_writer
+                        .transport_writer
+                        .delete_matched_reader(key.into());
+                    data_writer.remove_matched_subscription(&InstanceHandle::new(key));
+                    data_writer
+                        .status_condition
+                        .add_communication_state(StatusKind::PublicationMatched);
+                }
                 if data_writer
                     .transport_writer
                     .is_change_acknowledged(data_writer.last_change_sequence_number)
